@@ -317,7 +317,7 @@ func vecCacheHistories(r *RunCtx) {
 		for site, n := range sim.siteCounts {
 			r.countN("probe.yield."+site, n)
 		}
-		r.state(hashString(string(sim.schedTrace)))
+		r.sched(sim)
 		for t, tk := range sim.tasks {
 			if tk.panicV != nil {
 				r.fail("panic", panicSite(tk.panicSt), "task %d panicked: %v\n%s", t, tk.panicV, tk.panicSt)
